@@ -182,9 +182,8 @@ def corpus():
     cross0 = bcase(hist("1.14-rich-root", dirfile, [["mod", b"f1", b"x\ny\n"]]), None, 1, bfmt="4")
     cross0["dfmt"] = "2a"
     out.append(cross0)                                      # all parents inside the bundle: fine
-    # a v4 bundle that lost its last 30 bytes: read as a stream (the default of install_revisions) the bz2 data
-    # just ends, the container is cut short and bzrformats' container reader never returns
-    # (C40-v4-truncated-bundle-hangs); without streaming bz2 reports the damage
+    # regression (repaired by 098494b): a v4 bundle that lost its last 30 bytes must be refused at once, read as a
+    # stream (BadBundle; it used to make the container reader spin for ever) or not (bz2 reports the damage)
     for stream in (True, False):
         out.append({"k": "btamper", "h": hist("2a", dirfile, [["mv", b"d1", None, "dir2"]]), "base": None, "tgt": 1,
                     "bfmt": "4", "stream": stream, "pos": 0, "byte": 0, "cut": 30})
@@ -922,9 +921,6 @@ def finding_matches(fid, inp, obs, why):
     k = inp["k"]
     if k in ("bundle", "btamper", "merge"):
         from props import _c40_hist as H
-        if fid == "C40-v4-truncated-bundle-hangs":
-            # the stream is cut short (or emptied) without a bz2 error: the container reader spins at EOF
-            return k == "btamper" and inp["bfmt"] == "4" and bool(obs.get("hang")) and inp.get("stream", True)
         if fid == "C40-v4-cross-format-parent-inventory":
             # XML-inventory source, CHK receiver, and some bundled revision has a parent that is not in the bundle
             if k != "bundle" or inp["bfmt"] != "4" or obs.get("install_error") != "TypeError":
